@@ -4,6 +4,7 @@ import (
 	"fmt"
 	"go/types"
 	"math"
+	"os"
 	"regexp"
 	"strconv"
 	"strings"
@@ -12,6 +13,13 @@ import (
 )
 
 type intrinsicFn func(ex *Exec, fn *ssa.Function, args []Value) Value
+
+type lineScanner struct {
+	lines []string
+	pos   int
+}
+
+var vpFileType = types.NewNamed(types.NewTypeName(0, nil, "vpEmbeddedFile", nil), types.NewStruct(nil, nil), nil)
 
 var intrinsics map[string]intrinsicFn
 var vpIntrinsics map[string]intrinsicFn
@@ -185,10 +193,39 @@ func (ex *Exec) nativeArg(v Value) (any, bool) {
 	return nil, false
 }
 
+var hexFormatRe = regexp.MustCompile(`^([A-Za-z_]*)%0(\d)X$`)
+
 func (ex *Exec) sprintf(format Value, rest Value) StringV {
 	f, ok := format.(StringV)
 	if !ok || !f.concrete() {
 		return StringV{s: "<fmt>"}
+	}
+	// prefix%0nX of one symbolic integer: exact symbolic upper-case hex formatter
+	if m := hexFormatRe.FindStringSubmatch(f.str()); m != nil {
+		if sl, ok := rest.(SliceV); ok && sl.len == 1 {
+			if iv, ok := ex.load(ex.kid(sl.arr, sl.off)).(IfaceV); ok {
+				if t, ok := iv.v.(*Term); ok && t.Op != OConst && t.S.K == KBV {
+					minDigits := int(m[2][0] - '0')
+					st := ex.st
+					v := st.ZExt(t, 64)
+					if _, signed, _ := intInfo(iv.t); signed {
+						ex.checkPanic("fmt-negative", st.Bin(OSLt, t, st.BV(t.S.W, 0)), "negative value formatted with %X (sign not modelled)")
+						v = st.SExt(t, 64)
+					}
+					nd := minDigits
+					for nd < 16 && ex.branch(st.Bin(OULe, st.BV(64, uint64(1)<<uint(4*nd)), v)) {
+						nd++
+					}
+					bs := ex.strBytes(StringV{s: m[1]})
+					for k := nd - 1; k >= 0; k-- {
+						nib := st.Extract(st.Bin(OLShr, v, st.BV(64, uint64(4*k))), 3, 0)
+						d := st.ZExt(nib, 8)
+						bs = append(bs, st.Ite(st.Bin(OULt, d, st.BV(8, 10)), st.Bin(OAdd, d, st.BV(8, '0')), st.Bin(OAdd, d, st.BV(8, 'A'-10))))
+					}
+					return ex.mkString(bs)
+				}
+			}
+		}
 	}
 	var nargs []any
 	if sl, ok := rest.(SliceV); ok {
@@ -376,6 +413,16 @@ func init() {
 				return ex.st.BVs(64, int64(v))
 			}
 			return a[1]
+		},
+		"vpFileLines": func(ex *Exec, fn *ssa.Function, a []Value) Value {
+			name := ex.argStr(a[0])
+			dir := repoDir + strings.TrimPrefix(fn.Pkg.Pkg.Path(), "seehuhn.de/go/postscript")
+			raw, err := os.ReadFile(dir + "/" + name)
+			if err != nil {
+				ex.unsupported("vpFileLines: %v", err)
+			}
+			lines := strings.Split(strings.TrimSuffix(string(raw), "\n"), "\n")
+			return ex.stringSlice(lines)
 		},
 		"vpNote": func(ex *Exec, fn *ssa.Function, a []Value) Value {
 			ex.observed = append(ex.observed, ex.argStr(a[0]))
@@ -667,7 +714,30 @@ func init() {
 			return ex.writeTo(a[0], ex.newByteSlice(ex.strBytes(a[1].(StringV))))
 		},
 		"strings.Split": func(ex *Exec, fn *ssa.Function, a []Value) Value {
-			return ex.stringSlice(strings.Split(ex.argStr(a[0]), ex.argStr(a[1])))
+			s, sep := a[0].(StringV), a[1].(StringV)
+			if s.concrete() && sep.concrete() {
+				return ex.stringSlice(strings.Split(s.str(), sep.str()))
+			}
+			if !sep.concrete() || sep.Len() != 1 {
+				ex.unsupported("strings.Split with a symbolic or multi-byte separator")
+			}
+			sc := ex.st.BV(8, uint64(sep.str()[0]))
+			var parts []StringV
+			var cur []*Term
+			for _, b := range ex.strBytes(s) {
+				if ex.branch(ex.st.Eq(b, sc)) {
+					parts = append(parts, ex.mkString(cur))
+					cur = nil
+				} else {
+					cur = append(cur, b)
+				}
+			}
+			parts = append(parts, ex.mkString(cur))
+			arr := ex.newArray(types.Typ[types.String], len(parts))
+			for k, p := range parts {
+				ex.kid(arr, k).v = p
+			}
+			return SliceV{arr: arr, len: len(parts), cap: len(parts)}
 		},
 		"strings.SplitN": func(ex *Exec, fn *ssa.Function, a []Value) Value {
 			return ex.stringSlice(strings.SplitN(ex.argStr(a[0]), ex.argStr(a[1]), int(ex.argInt(a[2]))))
@@ -702,6 +772,54 @@ func init() {
 		"strconv.FormatInt": func(ex *Exec, fn *ssa.Function, a []Value) Value {
 			return StringV{s: strconv.FormatInt(ex.argInt(a[0]), int(ex.argInt(a[1])))}
 		},
+		"(embed.FS).Open": func(ex *Exec, fn *ssa.Function, a []Value) Value {
+			name := ex.argStr(a[1])
+			dir := ""
+			for f := ex.frame; f != nil; f = f.caller {
+				if f.fn.Pkg != nil && strings.HasPrefix(f.fn.Pkg.Pkg.Path(), "seehuhn.de/go/postscript") {
+					dir = repoDir + strings.TrimPrefix(f.fn.Pkg.Pkg.Path(), "seehuhn.de/go/postscript")
+					break
+				}
+			}
+			raw, err := os.ReadFile(dir + "/" + name)
+			if err != nil {
+				return TupleV{IfaceV{}, ex.errorValue("open " + name + ": file does not exist")}
+			}
+			return TupleV{IfaceV{t: vpFileType, v: Opaque{desc: string(raw)}}, IfaceV{}}
+		},
+		"bufio.NewScanner": func(ex *Exec, fn *ssa.Function, a []Value) Value {
+			iv := ex.ifaceOf(a[0])
+			op, ok := iv.v.(Opaque)
+			if !ok || iv.t != vpFileType {
+				ex.unsupported("bufio.Scanner over a reader that is not an embedded file")
+			}
+			l := ex.newLoc(types.NewStruct(nil, nil))
+			lines := strings.Split(op.desc, "\n")
+			if len(lines) > 0 && lines[len(lines)-1] == "" {
+				lines = lines[:len(lines)-1]
+			}
+			for k := range lines {
+				lines[k] = strings.TrimSuffix(lines[k], "\r")
+			}
+			ex.lineScanners[l] = &lineScanner{lines: lines, pos: -1}
+			return l
+		},
+		"(*bufio.Scanner).Scan": func(ex *Exec, fn *ssa.Function, a []Value) Value {
+			s := ex.lineScanners[a[0].(*Loc)]
+			if s == nil {
+				ex.unsupported("bufio.Scanner of unknown origin")
+			}
+			s.pos++
+			return ex.st.Bool(s.pos < len(s.lines))
+		},
+		"(*bufio.Scanner).Text": func(ex *Exec, fn *ssa.Function, a []Value) Value {
+			s := ex.lineScanners[a[0].(*Loc)]
+			if s == nil || s.pos < 0 || s.pos >= len(s.lines) {
+				return StringV{}
+			}
+			return StringV{s: s.lines[s.pos]}
+		},
+		"(*bufio.Scanner).Err": func(ex *Exec, fn *ssa.Function, a []Value) Value { return IfaceV{} },
 		"maps.Clone": func(ex *Exec, fn *ssa.Function, a []Value) Value {
 			m, _ := a[0].(*MapObj)
 			if m == nil {
@@ -741,7 +859,7 @@ func lookupIntrinsic(fn *ssa.Function) intrinsicFn {
 	name := fn.Name()
 	if strings.HasPrefix(name, "vp") && fn.Signature.Recv() == nil {
 		if h, ok := vpIntrinsics[name]; ok {
-			if name == "vpParam" || name == "vpSymbolic" || name == "vpSameLazy" || name == "vpSameRef" {
+			if name == "vpParam" || name == "vpSymbolic" || name == "vpSameLazy" || name == "vpSameRef" || name == "vpFileLines" {
 				return h
 			}
 			// harness primitives have engine-side effects: never inside a speculative arm
